@@ -1137,11 +1137,6 @@ func execSegfault(line string) Result {
 	}
 	if os.Getenv("VERIF_SF_DEBUG") != "" { // manual triage: both answers of every query that differs
 		fmt.Fprintf(os.Stderr, "mutation %s: %s; startup log errors: %v\n", f[len(f)-1], note, sync.LogErrors)
-		for _, l := range strings.Split(c2.stderr, "\n") {
-			if strings.HasPrefix(l, "DBG") { // temporary instrumentation of a scratch checkout
-				fmt.Fprintln(os.Stderr, l)
-			}
-		}
 		for i, q := range qs {
 			if a, b := clean[i].canon(q), got[i].canon(q); a != b || len(got[i].logErrs) > 0 {
 				fmt.Fprintf(os.Stderr, "q%d %s\n  clean: %s\n  got  : %s\n  log  : %v\n", i, q.spl, a, b, got[i].logErrs)
@@ -1217,6 +1212,7 @@ func sfQueries(nseg, nblk, nrec int, lo, hi uint64) []string {
 	q = append(q, fmt.Sprintf("q/0/1000/%s/c:n:ne:i32/stats:count+sum.n:-", all))
 	q = append(q, fmt.Sprintf("q/0/1000/%s/c:n:ge:i0", all))
 	q = append(q, fmt.Sprintf("q/0/1000/%s/c:i:ge:i0", all))
+	q = append(q, "q/0/1000/"+all+"/all/stats:count+sum.n:-") // answered from the segment statistics (.sst) when possible
 	q = append(q, "q/0/1000/"+all+"/all/stats:count+sum.n:k")
 	q = append(q, "q/0/1000/"+all+"/all/stats:count+sum.n:s")
 	q = append(q, "q/0/1000/"+all+"/all/tc:100")
@@ -1267,19 +1263,32 @@ func genSegfault(r *rand.Rand, n int, tier string) []string {
 		}
 		return "segfault card=2" + procs + " H " + strings.Join(h, " ") + " Q " + strings.Join(sfQueries(v.nseg, v.nblk, v.nrec, lo, hi), " ") + " M " + strconv.Itoa(seg) + "/" + mut
 	}
+	if tier != "thorough" && n > 160 {
+		n = 160 // the runner raises n to the thorough count when a fact or proof is broken; every case is two engine processes
+	}
 	if tier == "thorough" {
-		// every byte of the small files (positions beyond the end are reported as unchanged), three values per byte
-		for _, v := range variants {
+		// every byte of the small files (positions beyond the end are reported as unchanged), three values per byte and
+		// every truncation length; the enumeration is shuffled by the seed, the runner's seeds cover different parts
+		var all []string
+		for vi, v := range variants {
 			for seg := 0; seg < v.nseg; seg++ {
-				for _, f := range []string{"csg:s", "csg:timestamp", "csg:u", "cmi:s", "bsu", "sst", "sfm", "segmeta"} {
-					for p := 0; p < 760 && len(out) < n; p++ {
-						out = append(out, line(v, seg, fmt.Sprintf("%s/xor@a%d=%d", f, p, []int{1, 128, 255}[p%3])))
-						if p%4 == 0 {
-							out = append(out, line(v, seg, fmt.Sprintf("%s/cut@a%d", f, p)))
-						}
+				for _, f := range []string{"csg:s", "csg:timestamp", "csg:u", "csg:n", "cmi:s", "cmi:n", "bsu", "sst", "sfm", "segmeta", "pqmr:0", "crup:0"} {
+					size := map[string]int{"csg:s": 100, "csg:timestamp": 100, "csg:u": 240, "csg:n": 220, "cmi:s": 130, "cmi:n": 100, "bsu": 300, "sst": 760, "sfm": 640, "segmeta": 330, "pqmr:0": 64, "crup:0": 130}[f]
+					for p := 0; p < size; p++ {
+						all = append(all, fmt.Sprintf("%d %d %s/xor@a%d=%d", vi, seg, f, p, []int{1, 128, 255}[p%3]), fmt.Sprintf("%d %d %s/cut@a%d", vi, seg, f, p))
 					}
 				}
 			}
+		}
+		r.Shuffle(len(all), func(i, j int) { all[i], all[j] = all[j], all[i] })
+		for _, a := range all {
+			if len(out) >= n-len(muts)/4 {
+				break
+			}
+			var vi, seg int
+			var m string
+			fmt.Sscanf(a, "%d %d %s", &vi, &seg, &m)
+			out = append(out, line(variants[vi], seg, m))
 		}
 	}
 	// quick: a fixed core (one case per file kind and mutation family) first, then random draws
